@@ -378,6 +378,10 @@ func vfConcretize(a *vfAbs) *FSMDump {
 		}
 		if a.PolySet {
 			dp.PubPolyBz = vf.Bytes("dkg.pubpoly", 1)
+			if vf.Param("polyshape") != "" {
+				// a genuine encoding (dkg.BLSKeyring.PubPolyBytes) of a polynomial with two symbolic commitments
+				dp.PubPolyBz = vfPolyJSON(vfPolyCommit(0), vfPolyCommit(1))
+			}
 		}
 		p.DKGProposalPayload = dp
 		for _, ph := range vfDkgPhases {
@@ -485,6 +489,29 @@ func vfRequest(ev string, variant int) []interface{} {
 	case "event_dkg_response_confirm_received":
 		return []interface{}{requests.DKGProposalResponseConfirmationRequest{ParticipantId: vf.Int("req.pid"), Response: vfBytesLen("req.data", 2), CreatedAt: created}}
 	case "event_dkg_master_key_confirm_received":
+		if vf.Param("polyshape") != "" {
+			// announcements that are genuine encodings: the retained polynomial, the same with one more commitment, with a
+			// different coefficient, with one commitment less, or the same commitments in another JSON layout
+			var poly []byte
+			switch vf.Choose("req.polykind", 5) {
+			case 0:
+				poly = vfPolyJSON(vfPolyCommit(0), vfPolyCommit(1))
+			case 1:
+				poly = vfPolyJSON(vfPolyCommit(0), vfPolyCommit(1), vf.Bytes("poly.extra", 2))
+			case 2:
+				other := vf.Bytes("poly.other", 2)
+				vf.Assume(!vf.BytesEq(other, vfPolyCommit(1)))
+				poly = vfPolyJSON(vfPolyCommit(0), other)
+			case 3:
+				poly = vfPolyJSON(vfPolyCommit(0))
+			case 4:
+				poly, _ = json.Marshal(struct {
+					Share       []byte   `json:"share"`
+					Commitments [][]byte `json:"commitments"`
+				}{Commitments: [][]byte{vfPolyCommit(0), vfPolyCommit(1)}})
+			}
+			return []interface{}{requests.DKGProposalMasterKeyConfirmationRequest{ParticipantId: vf.Int("req.pid"), MasterKey: vfBytesLen("req.data", 2), PubPolyBz: poly, CreatedAt: created}}
+		}
 		return []interface{}{requests.DKGProposalMasterKeyConfirmationRequest{ParticipantId: vf.Int("req.pid"), MasterKey: vfBytesLen("req.data", 2), PubPolyBz: vfBytesLen("req.poly", 1), CreatedAt: created}}
 	case "event_dkg_commit_confirm_canceled_by_error", "event_dkg_deal_confirm_canceled_by_error",
 		"event_dkg_response_confirm_canceled_by_error", "event_dkg_master_key_confirm_canceled_by_error":
@@ -1108,4 +1135,16 @@ func VFProject(dump []byte, n int) (VFProjection, bool) {
 		}
 	}
 	return out, true
+}
+
+// vfPolyCommit: the k-th commitment of the polynomial the round retains (symbolic point encoding)
+func vfPolyCommit(k int) []byte { return vf.Bytes("poly.c"+strconv.Itoa(k), 2) }
+
+// vfPolyJSON: what dkg.BLSKeyring.PubPolyBytes produces for these commitments
+func vfPolyJSON(commits ...[]byte) []byte {
+	bz, _ := json.Marshal(struct {
+		Commitments [][]byte `json:"commitments"`
+		Share       []byte   `json:"share"`
+	}{Commitments: commits})
+	return bz
 }
